@@ -198,6 +198,24 @@ def purity_and_order(ctx, fp, fz, tag, Ptop):
     # value of an element does not depend on which element comes first (profiles listed top-down start with +inf / 0 Pa)
     za = np.array([np.inf, 0.0, 5.0, 50.0, 90.0, np.inf, 11.0, 120.0])
     pa = np.array([0.0, 101325.0, 54048.0, 79.0, 0.1, 0.0, Ptop, 1e-3])
+    # the result has the shape of the argument, axes of length 1 included (a column profile z[:, None], a single cloud-top pressure
+    # of shape (1,)), and holds what the flat evaluation holds
+    zs_ = np.array([0.0, 1.5, 11.0, 19.99, 47.0, 84.852])
+    for f_, site_, flat_ in ((fp, SP, zs_), (fz, NAMES[1], np.asarray(fp(zs_.copy()), dtype=np.float64))):
+        want_ = np.asarray(f_(flat_.copy()), dtype=np.float64)
+        for shp in ((6, 1), (1, 6), (1, 6, 1), (2, 3), (3, 1, 2), (1,), (1, 1)):
+            arg_ = (flat_[:1] if shp in ((1,), (1, 1)) else flat_).reshape(shp).copy()
+            ctx.count("shapes_with_singleton_axes")
+            try:
+                got_ = np.asarray(f_(arg_))
+            except Exception as e:  # noqa: BLE001
+                ctx.violation(f"{site_} [{tag}]", "raises-on-shaped-input", f"{type(e).__name__}: {str(e)[:100]}", {"copy": tag, "shape": list(shp)})
+                continue
+            w_ = (want_[:1] if shp in ((1,), (1, 1)) else want_).reshape(shp)
+            if got_.shape != tuple(shp) or not np.array_equal(np.asarray(got_, dtype=np.float64), w_, equal_nan=True):
+                ctx.violation(f"{site_} [{tag}]", "shape-or-values-depend-on-the-arguments-shape",
+                              f"an argument of shape {shp} gives a result of shape {got_.shape}" + ("" if got_.shape != tuple(shp) else " with other values than the flat evaluation"),
+                              {"copy": tag, "argument_shape": list(shp), "result_shape": list(got_.shape), "argument": arg_.ravel().tolist()})
     # what the calling program logs is inert: the same profiles (unsorted, 1-D and 2-D, and a scalar) with DEBUG logging switched on
     import logmode
     zl = np.concatenate([za[1:5], np.linspace(0.3, 118.7, 41)[::-1], [9.19, 71.0, 20.0, 32.0]])
